@@ -56,7 +56,11 @@ class Token:
         self.is_keyword = ttype in T.Keyword
         self.is_whitespace = self.ttype in T.Whitespace
         self.is_newline = self.ttype in T.Newline
-        self.normalized = value.upper() if self.is_keyword else value
+        if self.is_keyword:
+            # multi-word keywords may be written with any whitespace
+            self.normalized = ' '.join(value.upper().split())
+        else:
+            self.normalized = value
 
     def __str__(self):
         return self.value
